@@ -251,12 +251,19 @@ def gen_dgms(rng, lo, hi):
         keep = d > b
         arr = np.column_stack([b, d])[keep]
         arr = np.vstack([arr, [[lo, lo + (hi - lo) / 2], [lo + (hi - lo) / 4, hi]]])
-        out.append(arr[rng.permutation(len(arr))])
+        arr = arr[rng.permutation(len(arr))]
+        if INTDATA[0]:
+            arr = np.round(arr * 4).astype(rng.choice([np.int64, np.int32, np.int16, np.uint8]) if lo >= 0 else np.int64)
+        out.append(arr)
     return out
+
+
+INTDATA = [False]
 
 
 def landscaper_case(ctx, k, rng):
     hom = int(rng.integers(0, 2))
+    INTDATA[0] = bool(rng.random() < 0.25)       # this history works on integer-valued diagrams stored in an integer dtype
     fixed = {}
     if rng.random() < 0.3:
         fixed["start"] = float(rng.choice([-1.0, 0.0, 0.5]))
@@ -293,7 +300,10 @@ def landscaper_case(ctx, k, rng):
                 if rng.random() < 0.5:
                     X[hom] = Y[hom]
                 else:
-                    X[hom] *= float(rng.choice([0.5, 2.0, 3.0])); X[hom] += float(rng.choice([0.0, 1.0]))
+                    if X[hom].dtype.kind in "iu":
+                        X[hom] *= int(rng.choice([2, 3])); X[hom] += int(rng.choice([0, 1]))
+                    else:
+                        X[hom] *= float(rng.choice([0.5, 2.0, 3.0])); X[hom] += float(rng.choice([0.0, 1.0]))
                 e = (float(min(d[:, 0].min() for d in X)), float(max(d[:, 1].max() for d in X)))
                 reused = True
                 ctx.note("refits on the same container object with new content")
@@ -305,6 +315,8 @@ def landscaper_case(ctx, k, rng):
                     val = float(rng.choice([-1.0, 0.0, 0.5])) if name == "start" else float(rng.choice([6.0, 9.0, 12.0]))
                     if rng.random() < 0.3 and getattr(L, name) is not None:
                         val = float(getattr(L, name))      # numerically equal to what was learned, but now the user's choice
+                        if INTDATA[0] and val == int(val):
+                            val = int(val)                  # ... typed in as a plain int
                     log[-1].update({"param": name, "value": val})
                     setattr(L, name, val)
                     ctor[name] = val; fixed[name] = val
